@@ -1,18 +1,21 @@
 import AdaptiveModel.Drv.Seq
 import AdaptiveModel.Drv.Runner
 import AdaptiveModel.Drv.SaveFs
+import AdaptiveModel.Drv.DataSaver
 /-!
 Line-protocol driver: `lake env lean --run Driver.lean < ops.txt`.
 Each input line is `<component> <op> <args…>`; one output line per input line.
 -/
 structure All where
   seq : Seq.State Int := Seq.init 0
+  ds : DataSaver.Drv.D := {}
   run : Runner.State := Runner.init { ntasks := 1, retries := 0, raiseIf := true, blocking := true, doLog := false }
 
 def stepAll (a : All) (line : String) : All × String :=
   match (line.trimAscii.toString.splitOn " ").filter (· ≠ "") with
   | "seq" :: rest => let (s, o) := Seq.Drv.stepLine a.seq rest; ({ a with seq := s }, o)
   | "run" :: rest => let (s, o) := Runner.Drv.stepLine a.run rest; ({ a with run := s }, o)
+  | "ds" :: rest => let (s, o) := DataSaver.Drv.stepLine a.ds rest; ({ a with ds := s }, o)
   | "save" :: rest => (a, SaveFs.Drv.stepLine rest)
   | _ => (a, "bad-component")
 
